@@ -164,8 +164,8 @@ PROPS = {
                         "time.Time is modelled as Nat seconds with 0 = the zero time"],
     },
     "C19": {
-        "streams": [_CACHE_STREAM, _SRC_STREAM],
-        "oracles": ["cacheorder"],
+        "streams": [_CACHE_STREAM, _SRC_STREAM, _NODE_STREAM],
+        "oracles": ["cacheorder", "node"],
         "rule": _SRC_RULE + " same operation sequences as C18; foreach/closest/closer lines use query keys that are pool keys, the locus, "
                 "prefixes, extensions, one-bit neighbours and random keys; sequences are compared up to permutation inside "
                 "runs of entries equidistant from the query",
@@ -184,7 +184,7 @@ PROPS = {
     },
     "C17": {
         "streams": [{"name": "key", "quick": 20000, "thorough": 400000, "thorough_seeds": 3}, _SRC_STREAM],
-        "oracles": ["key"],
+        "oracles": ["key", "addr"],
         "rule": "one case per distinct operation text: peer ids (zero, all-ones, single-bit, random), texts that are valid, "
                 "mutated (foreign characters, CR/LF, non-canonical trailing bits, wrong length), one-bit neighbours for the order "
                 "law, OIDs with boundary arcs (0,39,40,127,128,2^14,2^21,2^31-1, >=2^31, invalid shapes), key bodies of length "
